@@ -257,7 +257,7 @@ theorem tryAttest_true (s : State) (att : Att) (kind : Kind)
     s'.executedLog = s.executedLog ∧ s'.lastNonce = s.lastNonce ∧ s'.oracles = s.oracles ∧
     s'.lastTotalPower = s.lastTotalPower ∧ s'.byBridger = s.byBridger ∧ s'.byExt = s.byExt ∧
     s'.proposal = s.proposal ∧ s'.params = s.params := by
-  cases kind <;> simp [tryAttest, h]
+  cases kind <;> simp [tryAttest, h, observeSetsLastObserved, observeMarksObserved]
 
 /-! ## C01 invariant -/
 
@@ -1194,5 +1194,86 @@ theorem noRebond_of_kept (hk : unbondDeletesLastNonce = false) (s : State) (ops 
   | cons op r ih =>
     have hn := ih _ (retired_step s op hk h)
     cases op <;> simp_all [noRebond]
+
+/-! ## the two ghost logs only grow from one operation to the next -/
+
+theorem run_append (s : State) (a b : List Op) : run s (a ++ b) = run (run s a) b := by
+  induction a generalizing s with
+  | nil => rfl
+  | cons op r ih => exact ih _
+
+theorem attest_logs (s : State) (o n h : Nat) (kind : Kind) :
+    (∃ l, (attest s o n h kind).observedLog = s.observedLog ++ l) ∧ (attest s o n h kind).executedLog = s.executedLog := by
+  unfold attest
+  simp only []
+  split
+  · cases ht : tally s.oracles (required s.lastTotalPower) (voteAtt s o n h).votes 0
+    · rw [tryAttest_false _ _ _ (by simpa using ht)]; exact ⟨⟨[], by simp⟩, rfl⟩
+    · obtain ⟨_, _, h3, _, h5, _⟩ := tryAttest_true { s with atts := setAtt s.atts (voteAtt s o n h) } (voteAtt s o n h) kind (by simpa using ht)
+      exact ⟨⟨_, h3⟩, h5⟩
+  · exact ⟨⟨[], by simp⟩, rfl⟩
+
+/-- every forest of calls extends the execution log it starts from (roll-backs inside the forest never reach below it) -/
+theorem execCalls_log_extends (df : Bool) (c : Calls) (p : Px) : ∃ l, (execCallsWith df p c).log = p.log ++ l := by
+  induction c generalizing p with
+  | nil => exact ⟨[], by simp [execCallsWith]⟩
+  | call n o inner next ihI ihN =>
+    unfold execCallsWith
+    simp only []
+    split
+    · exact ihN _
+    · cases o with
+      | fail => exact ihN _
+      | refund =>
+        obtain ⟨l, hl⟩ := ihN { pending := delPending p.pending n, log := p.log ++ [n] }
+        exact ⟨[n] ++ l, by rw [hl]; simp⟩
+      | ok =>
+        obtain ⟨l1, h1⟩ := ihI { pending := if df = true then delPending p.pending n else p.pending, log := p.log ++ [n] }
+        obtain ⟨l2, h2⟩ := ihN { execCallsWith df { pending := if df = true then delPending p.pending n else p.pending, log := p.log ++ [n] } inner with
+          pending := if df = true then (execCallsWith df { pending := if df = true then delPending p.pending n else p.pending, log := p.log ++ [n] } inner).pending
+            else delPending (execCallsWith df { pending := if df = true then delPending p.pending n else p.pending, log := p.log ++ [n] } inner).pending n }
+        refine ⟨[n] ++ l1 ++ l2, ?_⟩
+        rw [h2]; simp only []; rw [h1]; simp
+
+theorem logs_step (s : State) (op : Op) :
+    (∃ l, (step s op).1.observedLog = s.observedLog ++ l) ∧ (∃ l, (step s op).1.executedLog = s.executedLog ++ l) := by
+  have core : ∀ s' : State, Core s' = Core s →
+      (∃ l, s'.observedLog = s.observedLog ++ l) ∧ (∃ l, s'.executedLog = s.executedLog ++ l) := by
+    intro s' h
+    simp only [Core, Prod.mk.injEq] at h
+    exact ⟨⟨[], by simp [h.2.2.2.1]⟩, ⟨[], by simp [h.2.2.2.2]⟩⟩
+  cases op with
+  | claim w i n h k e =>
+    simp only [step]
+    by_cases hok : (claimStep s w i n h k).2 = .ok
+    · obtain ⟨a, _, _, _, _, _, _, _, heq⟩ := claim_ok s w i n h k hok
+      rw [heq]
+      obtain ⟨h1, h2⟩ := attest_logs s a n h k
+      exact ⟨h1, ⟨[], by simp [h2]⟩⟩
+    · rw [claim_not_ok s w i n h k hok]; exact ⟨⟨[], by simp⟩, ⟨[], by simp⟩⟩
+  | bond o b e a d => exact core _ (bond_core s o b e a d).1
+  | addDelegate o a d => exact core _ (addDelegate_core s o a d).1
+  | editBridger o b => exact core _ (editBridger_core s o b).1
+  | unbond o u bal d => exact core _ (unbond_core s o u bal d)
+  | gov l d => exact core _ (gov_core s l d).1
+  | endBlock l r => exact core _ (endBlock_core s l r).1
+  | exec n o c =>
+    simp only [step]
+    unfold execStep
+    split
+    · exact ⟨⟨[], by simp⟩, ⟨[], by simp⟩⟩
+    · split
+      · exact ⟨⟨[], by simp⟩, ⟨[], by simp⟩⟩
+      · obtain ⟨l, hl⟩ := execCalls_log_extends execDeletesBeforeHandler (.call n o c .nil) { pending := s.pending, log := s.executedLog }
+        exact ⟨⟨[], by simp⟩, ⟨l, by simp only [execCalls]; rw [hl]⟩⟩
+
+theorem logs_run (s : State) (ops : List Op) :
+    (∃ l, (run s ops).observedLog = s.observedLog ++ l) ∧ (∃ l, (run s ops).executedLog = s.executedLog ++ l) := by
+  induction ops generalizing s with
+  | nil => exact ⟨⟨[], by simp [run]⟩, ⟨[], by simp [run]⟩⟩
+  | cons op r ih =>
+    obtain ⟨⟨l1, h1⟩, ⟨l2, h2⟩⟩ := logs_step s op
+    obtain ⟨⟨l3, h3⟩, ⟨l4, h4⟩⟩ := ih (step s op).1
+    exact ⟨⟨l1 ++ l3, by simp only [run]; rw [h3, h1]; simp⟩, ⟨l2 ++ l4, by simp only [run]; rw [h4, h2]; simp⟩⟩
 
 end FxVerif.Proofs.C01
